@@ -14,7 +14,8 @@ Spec
            "enter": "ok|raise|finish", "fin": value-at-enter-finish,
            "ys": [tock yielded after step 1, 2, ...] (last one repeats; [] -> own tock),
            "end": None | [k, "return", value] | [k, "raise", "ValueError"|"KeyboardInterrupt"],
-           "acts": {"<k>" | "cease" | "exit": [["extend"|"remove", sched_id, [ids], propagate?], ...]}}
+           "acts": {"<k>" | "cease" | "exit": [["extend"|"remove", sched_id, [ids] | ["*"], propagate?, fresh?], ...]}}
+           (["*"] passes the scheduler's own .doers list object; fresh=True passes equal-but-not-identical bound methods)
            (acts keyed "cease"/"exit" run inside the doer's own cease/exit hook, e.g. a doer detaching a helper on exit)
   group = {"id": "G1", "kind": "dodoer", "tock": f, "always": bool, "doers": [node...]}
 Trace events: (kind, id, tyme, info) with kinds
@@ -27,6 +28,7 @@ import asyncio
 import gc
 import inspect
 import sys
+import types
 
 from hio.base import doing, tyming
 
@@ -78,11 +80,22 @@ class Run:
         for act in acts.get(str(k), ()):
             op, sid, ids = act[0], act[1], act[2]
             propagate = len(act) > 3 and act[3]
+            fresh = len(act) > 4 and act[4]
             target = self.sched(sid)
-            objs = [self.objs[i] for i in ids]
+            if list(ids) == ["*"]:
+                # the caller hands the scheduler its OWN member list object (e.g. doist.remove(doist.doers))
+                objs = target.doers
+                ids = [self.name_of(d) for d in target.doers]
+            else:
+                objs = [self.objs[i] for i in ids]
+                if fresh:
+                    # name a bound-method doer afresh (obj.method): equal to the member, but another object
+                    objs = [types.MethodType(o.__func__, o.__self__) if isinstance(o, types.MethodType) else o
+                            for o in objs]
             tag = "ext" if op == "extend" else "rem"
             self.ev(tag + "-call", spec["id"], sched=sid, ids=list(ids),
-                    before=[self.name_of(d) for d in target.doers])
+                    before=[self.name_of(d) for d in target.doers], own_list=objs is target.doers,
+                    fresh=sum(1 for i, o in zip(ids, objs) if o is not self.objs.get(i)) if objs is not target.doers else 0)
             try:
                 getattr(target, op)(objs)
             except Exception as ex:
